@@ -2166,12 +2166,15 @@ impl pkg::InputsPackager for RustInputsPackager {
         for (input_path, dist_input_path) in all_tar_inputs.iter() {
             let mut file_header = pkg::make_tar_header(input_path, dist_input_path)?;
             let file = fs::File::open(input_path)?;
+            let mut trimmed = false;
             if can_trim_rlibs && can_trim_this(input_path) {
                 let mut archive = ar::Archive::new(file);
 
                 while let Some(entry_result) = archive.next_entry() {
                     let mut entry = entry_result?;
-                    if entry.header().identifier() != b"rust.metadata.bin" {
+                    // The metadata member is called `lib.rmeta` since Rust 1.41, `rust.metadata.bin` before.
+                    let id = entry.header().identifier();
+                    if id != b"rust.metadata.bin" && id != b"lib.rmeta" {
                         continue;
                     }
                     let mut metadata_ar = vec![];
@@ -2183,9 +2186,14 @@ impl pkg::InputsPackager for RustInputsPackager {
                     file_header.set_size(metadata_ar.len() as u64);
                     file_header.set_cksum();
                     builder.append(&file_header, metadata_ar.as_slice())?;
+                    trimmed = true;
                     break;
                 }
-            } else {
+            }
+            if !trimmed {
+                // Not to be trimmed, or no metadata member found: send the file as it is
+                // (never leave a dependency out of the inputs).
+                let file = fs::File::open(input_path)?;
                 file_header.set_cksum();
                 builder.append(&file_header, file)?
             }
